@@ -38,12 +38,13 @@ class Sub:
 
 
 class Program:
-    def __init__(self, mode, main, vars=(), subs=(), dvars=()):
+    def __init__(self, mode, main, vars=(), subs=(), dvars=(), mvars=()):
         self.mode, self.main, self.vars, self.subs, self.dvars = mode, main, list(vars), list(subs), list(dvars)
+        self.mvars = list(mvars)      # output cells of MultiValue/MaybeValue expressions (created by the expression itself)
         self.assign_keys()
 
     def all_vars(self):
-        vs = list(self.vars) + list(self.dvars)
+        vs = list(self.vars) + list(self.dvars) + list(getattr(self, "mvars", []))
         for s in self.subs:
             vs += [v for _, v in s.params]
         return vs
@@ -134,6 +135,35 @@ NARY = {
     "Or": (pt.Or, "||", U, U, 2),
     "Concat": (pt.Concat, "concat", B, B, 2),
 }
+
+MAYBE = {  # kind -> (constructor, teal op, immediates, arg types, value type, min version)
+    "GlobalGetEx": (lambda a, k: pt.App.globalGetEx(a, k), "app_global_get_ex", [], [U, B], ANY, 2),
+    "LocalGetEx": (lambda acct, a, k: pt.App.localGetEx(acct, a, k), "app_local_get_ex", [], [U, U, B], ANY, 2),
+    "AssetBalance": (lambda acct, asset: pt.AssetHolding.balance(acct, asset), "asset_holding_get", ["AssetBalance"], [U, U], U, 2),
+    "AssetTotal": (lambda asset: pt.AssetParam.total(asset), "asset_params_get", ["AssetTotal"], [U], U, 2),
+}
+ITXN_FIELDS = {  # field -> (TxnField, type)
+    "TypeEnum": (pt.TxnField.type_enum, U), "Amount": (pt.TxnField.amount, U), "Fee": (pt.TxnField.fee, U),
+    "Receiver": (pt.TxnField.receiver, B), "Note": (pt.TxnField.note, B), "AssetAmount": (pt.TxnField.asset_amount, U),
+    "XferAsset": (pt.TxnField.xfer_asset, U),
+}
+
+
+class _SlotView:
+    """ScratchVar-like view of a MultiValue output slot"""
+
+    def __init__(self, slot, ttype):
+        self.slot, self.ttype = slot, ttype
+
+    def load(self):
+        return self.slot.load(self.ttype)
+
+    def store(self, value):
+        return self.slot.store(value)
+
+    def index(self):
+        return self.slot.index()
+
 
 TXN_FIELDS = {  # field -> (accessor on TxnObject, type, min version)
     "Sender": ("sender", B, 2), "Fee": ("fee", U, 2), "FirstValid": ("first_valid", U, 2), "Note": ("note", B, 2),
@@ -274,6 +304,22 @@ class SexpRenderer:
             return atoms(["prim", "vstores", "()", f"(load {pv.key})", self.e(n[2])])
         if t == "wideratio":
             return atoms(["wideratio", atoms([self.e(x) for x in n[1]]), atoms([self.e(x) for x in n[2]])])
+        if t == "itxn":
+            # Seq(Begin, SetField..., [Next, SetField...]*, Submit)
+            parts = ["(prim itxn_begin ())"]
+            for gi, fields in enumerate(n[1]):
+                if gi > 0:
+                    parts.append("(prim itxn_next ())")
+                for f, e in fields:
+                    parts.append(atoms(["prim", "itxn_field", atoms([f]), self.e(e)]))
+            parts.append("(prim itxn_submit ())")
+            return atoms(["seq"] + parts)
+        if t == "maybe":
+            # MaybeValue: Seq(multi-value op storing (value, hasValue), <reducer over the two outputs>)
+            kind, args, val_v, ok_v, body = n[1], n[2], n[3], n[4], n[5]
+            teal, imms = MAYBE[kind][1], MAYBE[kind][2]
+            mv = atoms(["multi", teal, atoms(imms), atoms([self.e(a) for a in args]), atoms([str(val_v.key), str(ok_v.key)])])
+            return atoms(["seq", mv, self.e(body)])
         if t == "comment":
             return "(note)" if n[2] is None else f"(note {self.e(n[2])})"
         if t == "pragma":
@@ -523,6 +569,22 @@ class Builder:
             return self.params[n[1]].store(self.e(n[2]))
         if t == "wideratio":
             return pt.WideRatio([self.e(x) for x in n[1]], [self.e(x) for x in n[2]])
+        if t == "itxn":
+            parts = [pt.InnerTxnBuilder.Begin()]
+            for gi, fields in enumerate(n[1]):
+                if gi > 0:
+                    parts.append(pt.InnerTxnBuilder.Next())
+                for f, e in fields:
+                    parts.append(pt.InnerTxnBuilder.SetField(ITXN_FIELDS[f][0], self.e(e)))
+            parts.append(pt.InnerTxnBuilder.Submit())
+            return pt.Seq(parts)
+        if t == "maybe":
+            kind, args, val_v, ok_v, body = n[1], n[2], n[3], n[4], n[5]
+            mv = MAYBE[kind][0](*[self.e(a) for a in args])
+            # the MaybeValue's output slots are the model's two variables
+            self.vars[val_v.uid] = _SlotView(mv.output_slots[0], mv.types[0])
+            self.vars[ok_v.uid] = _SlotView(mv.output_slots[1], mv.types[1])
+            return pt.Seq(mv, self.e(body))
         if t == "comment":
             return pt.Comment(n[1]) if n[2] is None else pt.Comment(n[1], self.e(n[2]))
         if t == "pragma":
